@@ -10,18 +10,34 @@ their axioms.
 namespace Logrange.Props.C19
 open Go Logrange.Registry
 
-/-- The listing the code computes, with the loop's counter behaviour as the extractor found it in
-`/repo` *now* (`Generated.C19.getPipesIncrementsCnt`). -/
-def listing (order : List Pipe) : List Pipe := getPipes Generated.C19.getPipesIncrementsCnt order
+/-- The listing the code computes, in the shape the extractor found in `/repo` *now*: either the insertion
+loop (with its counter behaviour `Generated.C19.getPipesIncrementsCnt`) or collect-then-library-sort
+(`Generated.C19.getPipesLibrarySort`). -/
+def listing (order : List Pipe) : List Pipe :=
+  getPipesShape Generated.C19.getPipesLibrarySort Generated.C19.getPipesIncrementsCnt order
+
+/-- the library-sort shape gives the sorted permutation -/
+theorem libSort_sorted_perm (order : List Pipe) :
+    (libSortPipes order).Pairwise (fun a b => bytesLe a.name b.name = true) ∧ (libSortPipes order).Perm order := by
+  refine ⟨?_, List.mergeSort_perm _ _⟩
+  unfold libSortPipes
+  exact List.pairwise_mergeSort (le := fun a b => bytesLe a.name b.name)
+    (fun a b c h1 h2 => bytesLe_trans a.name b.name c.name h1 h2)
+    (fun a b => by
+      rcases bytesLe_total a.name b.name with h | h <;> simp [h]) order
 
 /-- **Listing is alphabetical and complete**, for every map iteration order and any number of pipes:
 sorted by name (Go string order) and a permutation of the registry's pipes — every pipe exactly once. -/
 theorem listing_sorted (order : List Pipe) :
     (listing order).Pairwise (fun a b => bytesLe a.name b.name = true) ∧ (listing order).Perm order := by
-  have hfact : Generated.C19.getPipesIncrementsCnt = true := by decide
-  have hsearch : Generated.C19.getPipesSearchesOverCnt = true := by decide
-  unfold listing; rw [hfact]
-  exact getPipes_sorted_perm order
+  -- the source has one of the two shapes for which the listing is the sorted permutation
+  have hshape : Generated.C19.getPipesLibrarySort = true ∨
+      (Generated.C19.getPipesLibrarySort = false ∧ Generated.C19.getPipesIncrementsCnt = true ∧
+        Generated.C19.getPipesSearchesOverCnt = true) := by decide
+  unfold listing getPipesShape
+  rcases hshape with h | ⟨h, hfact, _⟩
+  · rw [h]; exact libSort_sorted_perm order
+  · rw [h, hfact]; exact getPipes_sorted_perm order
 
 /-- The listing does not depend on the map iteration order when names are distinct: two orders of the
 same pipes give the same list. -/
@@ -285,9 +301,9 @@ def pA : Pipe := ⟨[97], [], []⟩
 def pB : Pipe := ⟨[98], [1], []⟩
 def pA' : Pipe := ⟨[97], [2], []⟩
 
-example : (listing [pB, pA]).map (·.name) = [[97], [98]] := by
-  have hfact : Generated.C19.getPipesIncrementsCnt = true := by decide
-  unfold listing; rw [hfact]; decide
+example : (getPipes true [pB, pA]).map (·.name) = [[97], [98]] := by decide
+example : (libSortPipes [pB, pA]).map (·.name) = [[97], [98]] := by
+  simp [libSortPipes, List.mergeSort, List.MergeSort.Internal.splitInTwo, List.splitAt, List.splitAt.go, pA, pB, bytesLe, bytesLt]
 example : Reg.Nodup [pA, pB] ∧ Reg.find [pA, pB] pA'.name = some pA := by
   unfold Reg.Nodup; decide
 /-- two racing creators of one name: one schedule where the second section of the first caller runs last -/
